@@ -61,8 +61,8 @@ def main():
         demo1, demo0 = os.path.join(d, '_demos', 'demo_with.py'), os.path.join(d, '_demos', 'demo_without.py')
         d0 = os.path.join(d, '_clean')          # an unmodified copy of the current tree: the demo may insist on cwd == tree root
         shutil.copytree('/repo/elfi', os.path.join(d0, 'elfi'), ignore=shutil.ignore_patterns('__pycache__', '*.pyc', 'bdm'))
-        open(demo1, 'w').write(re.sub(r'/tmp/seed-c\d\d', d, text))
-        open(demo0, 'w').write(re.sub(r'/tmp/seed-c\d\d', d0, text))
+        open(demo1, 'w').write(re.sub(r'/tmp/seed2?-c[0-9][0-9]', d, text))
+        open(demo0, 'w').write(re.sub(r'/tmp/seed2?-c[0-9][0-9]', d0, text))
         r1 = sh(['/venv/bin/python', demo1], env=env, cwd=d, timeout=900)
         r0 = sh(['/venv/bin/python', demo0], env=dict(os.environ, PYTHONPATH=d0, MPLBACKEND='Agg'), cwd=d0, timeout=900)
         res['demo'] = dict(with_change_exit=r1.returncode, without_change_exit=r0.returncode, with_change_tail=(r1.stdout + r1.stderr)[-300:], seconds=round(time.time() - t, 1))
